@@ -41,18 +41,28 @@ FloatToInt(tag, x, p, pl, t) ==      \* pl = precision of long double (64 on the
       [] tag = "neg_inf" -> FloorAsCoded(x, t)
       [] OTHER -> CastToInt(x, t)
 
-\* floating point x (precision p) -> scaled_integer<t, power<E, 2>> under `tag`: static_cast<result>(x [+- half])
+\* floating point x (precision p) -> scaled_integer<t, power<E, 2>> under `tag`.
+\*   nearest:                 static_cast<result>(x +- half)
+\*   tie_to_pos_inf, neg_inf: floor of (x + half) resp. x in units of the result -- truncated = static_cast<result>(y);
+\*                            (y < 0 && y < static_cast<Input>(truncated)) ? from_rep<result>(ResultRep(to_rep(truncated) - 1)) : truncated
+\*   (the cast back to the floating-point type is exact: the truncated representation has no more significant bits than y)
+IntLitR(n) == TV(IntT(WINT, 1), FromInt(n))
+FloorScaledAsCoded(y, t, E) ==
+    LET u == DyScale(y, -E)
+        w == CastToInt(u, t)
+    IN IF w.ub THEN w
+       ELSE IF DyIsNeg(y) /\ ~DyIntegral(u) THEN CConv(CBin("sub", w, IntLitR(1)), t)
+       ELSE w
 FloatToScaled(tag, x, p, t, E) ==
     LET half == DyPow2(E - 1)
         y == CASE tag = "nearest" -> DyRound(DyAdd(x, IF DyIsNeg(x) THEN <<FromInt(-1), E - 1>> ELSE half), p)
                [] tag = "tie_to_pos_inf" -> DyRound(DyAdd(x, half), p)
                [] OTHER -> x
-    IN CastToInt(DyScale(y, -E), t)
+    IN IF tag \in {"tie_to_pos_inf", "neg_inf"} THEN FloorScaledAsCoded(y, t, E) ELSE CastToInt(DyScale(y, -E), t)
 
 \* finer scaled_integer<st, power<Es, r>> raw a -> coarser scaled_integer<dt, power<Ed, r>> (Ed > Es) under `tag`;
 \* ft = representation of the type the call actually returns (neg_inf returns from_rep<result>(promoted value), whose
 \* representation is the promoted source type, not the destination's)
-IntLitR(n) == TV(IntT(WINT, 1), FromInt(n))
 ScaledToScaled(tag, a, st, Es, dt, Ed, r, ft) ==
     LET k == Ed - Es
         from == TV(st, a)
